@@ -530,6 +530,15 @@ func main() {
 					scs = append(scs, &gen.Scenario{ID: len(scs), Share: "goarg", Access: a, Via: via, Root: "go"})
 				}
 			}
+			// two holders of one shared object passed to a callee (access through the second holder),
+			// delayed hand-off through a loop-carried variable
+			for _, sh := range []string{"goarg", "closure", "field"} {
+				scs = append(scs, &gen.Scenario{ID: len(scs), Share: sh, Access: "store", Via: "twoholders", Root: "go"})
+				scs = append(scs, &gen.Scenario{ID: len(scs), Share: sh, Access: "lookup", Via: "twoholders", Root: "call"})
+			}
+			for _, a := range []string{"store", "load", "mapupdate"} {
+				scs = append(scs, &gen.Scenario{ID: len(scs), Share: "goarg", Access: a, Via: "direct", Root: "delayed"})
+			}
 			for _, sh := range gen.ConcShares {
 				scs = append(scs, &gen.Scenario{ID: len(scs), Share: sh, Access: "store", Via: "direct", Root: "go"})
 				scs = append(scs, &gen.Scenario{ID: len(scs), Share: sh, Access: "lookup", Via: "callee", Root: "call"})
